@@ -34,6 +34,9 @@ type iterCase struct {
 	Busy bool `json:"busy,omitempty"`
 	// ArgStyle: 0 "MATCH p COUNT n", 1 "COUNT n MATCH p", 2 lower-case option names (Redis accepts all three)
 	ArgStyle int `json:"arg_style,omitempty"`
+	// Backups: the service also has this many hosts of type Backup (replicas of the first master, which hold no keys of
+	// their own): the iteration covers the usable hosts - the main ones while any of them is healthy - and must end after the last of them
+	Backups int `json:"backup_hosts,omitempty"`
 }
 
 var terminal = ref.ArrV(ref.BulkS("0"), ref.ArrV())
@@ -109,7 +112,15 @@ func checkIter(c iterCase) (nt bool, v *verdict) {
 	} else {
 		defer sim.ProductionRefreshRate()() // stable layout: see the function
 	}
-	px, err := sim.StartProxy(sim.ProxyOpts{Seeds: w.Addrs(w.Masters())})
+	var backups []string
+	if ms := w.Masters(); len(ms) > 0 {
+		for i := 0; i < c.Backups; i++ {
+			if n, err := w.AddNode(ms[0]); err == nil {
+				backups = append(backups, n.Addr)
+			}
+		}
+	}
+	px, err := sim.StartProxy(sim.ProxyOpts{Seeds: w.Addrs(w.Masters()), BackupSeeds: backups})
 	if err != nil {
 		return nt, &verdict{"proxy-start", err.Error()}
 	}
@@ -247,6 +258,9 @@ func checkIter(c iterCase) (nt bool, v *verdict) {
 		for _, a := range w.Addrs(w.Masters()) {
 			hs = append(hs, host.New(a))
 		}
+		for _, a := range backups {
+			hs = append(hs, host.NewWithType(a, host.TypeBackup))
+		}
 		if err := px.P.OnSvcHostRemove(hs); err != nil {
 			return nt, nil
 		}
@@ -300,6 +314,9 @@ func genIter(t *rapid.T) iterCase {
 			// patterns that look like something else: an option name, a number, a cursor, bytes with meaning in RESP
 			c.Match = rapid.SampledFrom([]string{"count", "COUNT", "Count", "match", "MATCH", "0", "10", "-1", "18446744073709551615", "type", "TYPE", "*", "", " ", "a b", "k\r\n", "[a-c]*", "\\*"}).Draw(t, "oddpatv")
 		}
+	}
+	if rapid.IntRange(0, 3).Draw(t, "backups") == 0 {
+		c.Backups = rapid.IntRange(1, 2).Draw(t, "nbackups")
 	}
 	if rapid.Bool().Draw(t, "count") {
 		c.Count = rapid.IntRange(1, 10000).Draw(t, "cnt")
